@@ -805,6 +805,11 @@ class Function(Ring):
         # STEP 2: call the function
         # print 'func=',func
         # print 'args=',args
+        if func is operator.setitem:
+            # save the entries that are about to be overwritten; the pullback
+            # restores them.  This has to happen on every evaluation of the
+            # node, not only while recording.
+            setitem = (args[1], operator.getitem(args[0], args[1]).copy())
         out  = func(*args, **Fkwargs)
 
         # STEP 3: create new Function instance for output
